@@ -210,6 +210,94 @@ fn run_position_function(t: &mut Tape, ctx: &mut CaseCtx) -> Verdict {
     }
 }
 
+/// v5 (round 11): a directed family around the WORD boundary of a mnemonic. For every pair there is a rule with an
+/// expression operand (`ldx {v: u8}`), a constant (`a = 6`) and a second rule whose mnemonic is the first one with the
+/// constant's name glued on (`ldxa`), mnemonic plus name at most four characters long. `ldx a` is the first rule applied
+/// to the constant, `ldxa` is the second one: the blank ends the mnemonic. Sizes are fixed (2 bytes / 1 byte), the
+/// reference is a direct computation. (Beyond four characters the pinned tree reads `push x` as `pushx`: the matcher
+/// design question recorded under C08, see DESIGN section 7.2; those lengths are not generated.)
+fn run_split_word(t: &mut Tape, ctx: &mut CaseCtx) -> Verdict {
+    const FIRST: &[char] = &['b', 'd', 'f', 'g', 'h', 'j', 'k', 'm'];
+    const REST: &[char] = &['c', 'n', 'q', 'r', 't', 'v', 'w', 'x', 'z'];
+    let npairs = t.urange(1, 4);
+    let mut firsts: Vec<char> = FIRST.to_vec();
+    for i in (1..firsts.len()).rev() {
+        let j = t.below(i + 1);
+        firsts.swap(i, j);
+    }
+    let mut rules: Vec<String> = Vec::new();
+    let mut consts = String::new();
+    let mut pairs: Vec<(String, String, u8, u8, u8)> = Vec::new();
+    for k in 0..npairs {
+        let m = t.urange(1, 3);
+        let sl = t.urange(1, 4 - m);
+        let mut mn = String::new();
+        mn.push(firsts[k]);
+        for _ in 1..m {
+            mn.push(*t.pick(REST));
+        }
+        // the constant's name starts with a letter no mnemonic starts with
+        let mut name = String::new();
+        for _ in 0..sl {
+            name.push(*t.pick(REST));
+        }
+        if pairs.iter().any(|p| p.1 == name) {
+            continue;
+        }
+        let (op1, op2, val) = (0x10 + k as u8, 0x80 + k as u8, t.below(256) as u8);
+        rules.push(format!("    {} {{v: u8}} => 0x{:02x} @ v\n", mn, op1));
+        rules.push(format!("    {}{} => 0x{:02x}\n", mn, name, op2));
+        consts.push_str(&format!("{} = {}\n", name, val));
+        pairs.push((mn, name, op1, op2, val));
+    }
+    for i in (1..rules.len()).rev() {
+        let j = t.below(i + 1);
+        rules.swap(i, j);
+    }
+    let mut src = format!("#ruledef\n{{\n{}}}\n{}", rules.concat(), consts);
+    let mut want: Vec<u8> = Vec::new();
+    let n = t.urange(2, 10);
+    for _ in 0..n {
+        let (mn, name, op1, op2, val) = &pairs[t.below(pairs.len())];
+        match t.weighted(&[5, 3, 2]) {
+            0 => {
+                let gap = *t.pick(&[" ", " ", "  ", "\t"]);
+                src.push_str(&format!("{}{}{}\n", mn, gap, name));
+                want.extend([*op1, *val]);
+            }
+            1 => {
+                src.push_str(&format!("{}{}\n", mn, name));
+                want.push(*op2);
+            }
+            _ => {
+                let lit = t.below(256) as u8;
+                src.push_str(&format!("{} {}\n", mn, lit));
+                want.extend([*op1, lit]);
+            }
+        }
+    }
+    ctx.set_hash_str(&src);
+    ctx.label("split-word-family");
+    ctx.nontrivial = true;
+    let want_bits: Vec<bool> = want.iter().flat_map(|b| (0..8).rev().map(move |k| (b >> k) & 1 == 1)).collect();
+    ctx.render(|| json!({"source": src, "model": format!("ok {} bits {}", want_bits.len(), sut::bits_hex(&want_bits))}));
+    let out = sut::assemble_src(&src, &Opts::default());
+    ctx.evals += 1;
+    let fail = |c: &str, d: String, ctx: &mut CaseCtx| {
+        ctx.want_render = true;
+        ctx.render(|| json!({"source": src, "model": format!("ok {} bits {}", want_bits.len(), sut::bits_hex(&want_bits))}));
+        Verdict::fail(format!("split-word|{}", c), d)
+    };
+    match &out {
+        sut::AsmOutcome::Ok(ok) if ok.bits == want_bits => Verdict::Pass,
+        sut::AsmOutcome::Ok(ok) => {
+            let at = ok.bits.iter().zip(want_bits.iter()).position(|(a, b)| a != b);
+            fail("bits-differ", format!("model {} / assembler {} (first difference at bit {:?})", sut::bits_hex(&want_bits), sut::bits_hex(&ok.bits), at), ctx)
+        }
+        other => fail("valid-program-rejected", other.brief(), ctx),
+    }
+}
+
 impl Property for C01 {
     fn id(&self) -> &'static str {
         "C01"
@@ -221,7 +309,7 @@ impl Property for C01 {
          constant chains, address-dependent constants, operands at every type boundary, #d/#dN of widths 1..64, strings, #res, #align, forward #addr, 0-3 banks with \
          units 4..32), one fifth with one injected fault (unknown mnemonic, operand count, wrapper, undefined symbol). Oracle = reference assembler R-ASM (structural \
          matcher + layout + R-EXPR): success iff the model succeeds, then identical bits (length included) and identical symbol table; model-reject => the assembler must \
-         report an error and produce no output. Non-trivial = >= 3 instructions, >= 1 operand naming a label or constant, and two rules sharing a mnemonic (prefix); distinct by hash of the rendered source. (v4) one case in twelve is the directed position-function family: `#fn relq(t) => t - $ - 2`, `jrq` through it (in the production or in the operand), a pseudo-instruction `callq {a} => asm { pushq retq / jmpq {a} / retq: }`, fixed sizes (6/2/1 bytes); the reference is computed directly: addresses by summing sizes, every encoding applied to its arguments at its own address."
+         report an error and produce no output. Non-trivial = >= 3 instructions, >= 1 operand naming a label or constant, and two rules sharing a mnemonic (prefix); distinct by hash of the rendered source. (v4) one case in twelve is the directed position-function family: `#fn relq(t) => t - $ - 2`, `jrq` through it (in the production or in the operand), a pseudo-instruction `callq {a} => asm { pushq retq / jmpq {a} / retq: }`, fixed sizes (6/2/1 bytes); the reference is computed directly: addresses by summing sizes, every encoding applied to its arguments at its own address. (v5) one case in sixteen is the directed split-word family: pairs of rules `ldx {v: u8}` / `ldxa` with a constant `a` (mnemonic plus name at most four characters), lines `ldx a`, `ldx<TAB>a`, `ldxa`, `ldx 7` in any order with the rules shuffled; the blank ends the mnemonic, sizes are fixed, the reference is computed directly."
             .to_string()
     }
     fn assumptions(&self) -> Vec<String> {
@@ -242,6 +330,9 @@ impl Property for C01 {
     fn run(&self, t: &mut Tape, ctx: &mut CaseCtx) -> Verdict {
         if crate::engine::gen_version() >= 4 && t.chance(1, 12) {
             return run_position_function(t, ctx);
+        }
+        if crate::engine::gen_version() >= 5 && t.chance(1, 16) {
+            return run_split_word(t, ctx);
         }
         let (prog, info) = gen_case(t, 24, true, true);
         let (src, _) = render(&prog);
